@@ -969,13 +969,14 @@ func init() {
 					return m.str(strings.ToUpper(s.s))
 				}
 				out := make([]*Term, len(s.sym))
+				allAscii := m.f.tru
+				for _, c := range s.sym {
+					allAscii = m.f.And(allAscii, m.f.Cmp(OUlt, c, m.f.Const(8, 0x80)))
+				}
+				if !m.branchT(allAscii) {
+					return m.execSSA(caller, fn, a, nil) // some byte is not ASCII on this path: the real code decides
+				}
 				for i, c := range s.sym {
-					ascii := m.f.Cmp(OUlt, c, m.f.Const(8, 0x80))
-					if !ascii.IsTrue() {
-						if v, ok := m.decideByMask(ascii); !ok || !v {
-							return m.execSSA(caller, fn, a, nil) // possibly non-ASCII: the real code decides
-						}
-					}
 					if lower {
 						up := m.f.And(m.f.Cmp(OUle, m.f.Const(8, 'A'), c), m.f.Cmp(OUle, c, m.f.Const(8, 'Z')))
 						out[i] = m.f.Ite(up, m.f.Bin(OAdd, c, m.f.Const(8, 32)), c)
@@ -990,6 +991,42 @@ func init() {
 	}
 	fnIntrinsics["strings.ToLower"] = caseMap(true)
 	fnIntrinsics["strings.ToUpper"] = caseMap(false)
+
+	// strings.EqualFold: when the compared prefix (the shorter length) is all ASCII the result is a bytewise term
+	// (this is exactly the function's own fast path); otherwise the real code runs.
+	fnIntrinsics["strings.EqualFold"] = func(fn *ssa.Function) intrinsic {
+		return func(m *Machine, caller *frame, a []Value) Value {
+			s, t := a[0].(*Str), a[1].(*Str)
+			if s.IsConc() && t.IsConc() {
+				return m.f.Bool(strings.EqualFold(s.s, t.s))
+			}
+			n := s.Len()
+			if t.Len() < n {
+				n = t.Len()
+			}
+			allAscii := m.f.tru
+			for i := 0; i < n; i++ {
+				allAscii = m.f.And(allAscii, m.f.And(m.f.Cmp(OUlt, m.strAt(s, i), m.f.Const(8, 0x80)), m.f.Cmp(OUlt, m.strAt(t, i), m.f.Const(8, 0x80))))
+			}
+			if !m.branchT(allAscii) {
+				return m.execSSA(caller, fn, a, nil)
+			}
+			if s.Len() != t.Len() {
+				// the fast path compares the common prefix and then the lengths; a mismatch inside the prefix or the
+				// length difference both give false
+				return m.f.fls
+			}
+			r := m.f.tru
+			for i := 0; i < n; i++ {
+				x, y := m.strAt(s, i), m.strAt(t, i)
+				lx := m.f.Bin(OOr, x, m.f.Const(8, 0x20))
+				ly := m.f.Bin(OOr, y, m.f.Const(8, 0x20))
+				letter := m.f.And(m.f.Cmp(OUle, m.f.Const(8, 'a'), lx), m.f.Cmp(OUle, lx, m.f.Const(8, 'z')))
+				r = m.f.And(r, m.f.Or(m.f.Cmp(OEq, x, y), m.f.And(letter, m.f.Cmp(OEq, lx, ly))))
+			}
+			return r
+		}
+	}
 
 	// net.ResolveXAddr(network, address): synthetic address object; Zone carries the address text.
 	resolve := func(fn *ssa.Function) intrinsic {
